@@ -719,13 +719,21 @@ func (e *explorer) check(si *sinfo, oi int) {
 	}
 	// idempotence: the same operation on its own result
 	tr2 := e.apply(ni, oi)
+	idemSig := "C11:" + tr.kind + "-not-idempotent"
+	if o.kind == "get" && want != "" {
+		// cause: the requested version itself (transitively) requires a newer version of the
+		// same project, so it can never be the selected one
+		if alone := e.w.RefBuildList([]Req{{o.q.Path, want}}); alone.List[o.q.Path] != want {
+			idemSig = "C11:get-not-idempotent:version-requires-newer-self"
+		}
+	}
 	switch {
 	case tr2.status == mvsfake.Skipped || tr2.status == mvsfake.Hung || tr2.status == mvsfake.Panicked:
 		e.t.Add("idempotence-not-checked(hang)", 1)
 	case tr2.err != "":
-		viol("C11:"+tr.kind+"-not-idempotent", "repeating the operation on its own result fails: "+tr2.err, map[string]any{"second_application": "error: " + tr2.err})
+		viol(idemSig, "repeating the operation on its own result fails: "+tr2.err, map[string]any{"second_application": "error: " + tr2.err})
 	case tr2.to != tr.to:
-		viol("C11:"+tr.kind+"-not-idempotent", fmt.Sprintf("repeating the operation on its own result changes it again: %v -> %v", ni.s, e.states[tr2.to].s),
+		viol(idemSig, fmt.Sprintf("repeating the operation on its own result changes it again: %v -> %v", ni.s, e.states[tr2.to].s),
 			map[string]any{"second_application": e.states[tr2.to].s, "second_build_list": mvsfake.FormatList(e.states[tr2.to].bl)})
 	default:
 		e.t.Add("idempotence-checked", 1)
@@ -866,11 +874,19 @@ func main() {
 			Projects: []mvsfake.ProjectDef{named(two("c", "v1.0.0", "v1.1.0"), "x"), named(two("c", "v2.0.0", "v2.1.0"), "x")}}, 1, false, true, depth),
 		generic(&mvsfake.Family{Name: "v0-v1 z(v0.9.0 v1.0.0), y", Addr: "example.com", Projects: []mvsfake.ProjectDef{two("z", "v0.9.0", "v1.0.0"), one("y", "v1.0.0")}}, 2, true, false, depth),
 	}
+	// three versions of one project: a downgrade can fall back to an earlier version instead of
+	// having to drop a project
+	fams = append(fams, generic(&mvsfake.Family{Name: "3+2 a(v1.0.0 v1.1.0 v1.2.0), b(v1.0.0 v1.1.0)", Addr: "example.com",
+		Projects: []mvsfake.ProjectDef{{Dir: "a", Versions: []string{"v1.0.0", "v1.1.0", "v1.2.0"}}, two("b", "v1.0.0", "v1.1.0")}}, 1, false, false, depth))
+	if r.Thorough() {
+		fams = append(fams, generic(&mvsfake.Family{Name: "3x3 a,b(v1.0.0 v1.1.0 v1.2.0)", Addr: "example.com",
+			Projects: []mvsfake.ProjectDef{{Dir: "a", Versions: []string{"v1.0.0", "v1.1.0", "v1.2.0"}}, {Dir: "b", Versions: []string{"v1.0.0", "v1.1.0", "v1.2.0"}}}}, 2, true, false, depth))
+	}
 	bigLevel, bigRefs := 0, false
 	if r.Thorough() {
-		bigLevel, bigRefs = 1, true
+		bigLevel, bigRefs = 2, true
 	}
-	big := generic(&mvsfake.Family{Name: "2x2+1", Addr: "example.com", Projects: []mvsfake.ProjectDef{pa, pb, one("c", "v1.0.0")}}, bigLevel, bigRefs, false, 2)
+	big := generic(&mvsfake.Family{Name: "2x2+1", Addr: "example.com", Projects: []mvsfake.ProjectDef{pa, pb, one("c", "v1.0.0")}}, bigLevel, bigRefs, false, depth)
 	fams = append(fams, big)
 
 	var perFam [][]item
@@ -915,7 +931,7 @@ func main() {
 		defer g.EndItem(t)
 		if r.Expired() {
 			t.Add("universes-not-run(time)", 1)
-			r.Cap(fmt.Sprintf("time budget %v reached before all universes were explored", r.Budget))
+			r.Cap("time budget reached before all universes were explored (see counters universes / universes-not-run(time))")
 			return
 		}
 		u := f.universe(it.ui)
@@ -937,7 +953,7 @@ func main() {
 		r.Cap(fmt.Sprintf("%d operations were skipped because operations of their kind had hung", r.Get("skipped-after-hang")))
 	}
 	mvsfake.EmitViolations(r)
-	bounds := map[string]any{"sequence_length": depth, "sequence_length(2x2+1)": 2}
+	bounds := map[string]any{"sequence_length": depth}
 	for i, f := range fams {
 		var qs []string
 		for _, o := range opsOf[i] {
